@@ -95,6 +95,7 @@ struct Dumper {
     else if (auto *CV = dyn_cast<ConstantDataVector>(C)) { os << "{\"k\":\"vec\",\"e\":["; for (unsigned i = 0; i < CV->getNumElements(); ++i) { if (i) os << ","; os << cst(CV->getElementAsConstant(i)); } os << "]}"; }
     else if (auto *CV = dyn_cast<ConstantVector>(C)) { os << "{\"k\":\"vec\",\"e\":["; for (unsigned i = 0; i < CV->getNumOperands(); ++i) { if (i) os << ","; os << cst(CV->getOperand(i)); } os << "]}"; }
     else if (auto *CA = dyn_cast<ConstantDataArray>(C)) { os << "{\"k\":\"vec\",\"e\":["; for (unsigned i = 0; i < CA->getNumElements(); ++i) { if (i) os << ","; os << cst(CA->getElementAsConstant(i)); } os << "]}"; }
+    else if (auto *CS = dyn_cast<ConstantStruct>(C)) { os << "{\"k\":\"struct\",\"e\":["; for (unsigned i = 0; i < CS->getNumOperands(); ++i) { if (i) os << ","; os << cst(CS->getOperand(i)); } os << "]}"; }
     else if (auto *F = dyn_cast<Function>(C)) { os << "{\"k\":\"func\",\"name\":\"" << esc(F->getName()) << "\"}"; }
     else if (auto *G = dyn_cast<GlobalVariable>(C)) {
       os << "{\"k\":\"global\",\"name\":\"" << esc(G->getName()) << "\"";
